@@ -84,8 +84,9 @@ def _run_many(args):
     from harness import ext_c19 as X
     depth, jobs = args
     res = []
-    for hist, expect in jobs:
-        obs = X.run_history(hist, depth)
+    for job in jobs:
+        hist, expect = job[0], job[1]
+        obs = X.run_history(hist, depth, dispatch=(len(job) < 3 or job[2]))
         drift = ""
         if expect is not None:
             for n, (o, e) in enumerate(zip(obs, expect)):
@@ -373,11 +374,17 @@ def sim_conformance(chk: Check, pool, cfg: str, depth: int, num: int, length: in
     """TLC -simulate behaviours of a larger instance -> real object, compared with the model at every step."""
     d = os.path.join(tmp, "sim_" + cfg.replace(".cfg", ""))
     os.makedirs(d)
-    r = tlc.run_tlc("MC_FaultLog", cfg_variant(cfg, stats["variant"], tmp), simulate=f"file={d}/tr,num={num}",
+    # (a generator run: the instance's invariant would stop the simulation at the first behaviour that trips it)
+    gen_cfg = cfg_variant(cfg, stats["variant"], tmp)
+    txt = re.sub(r"(?m)^INVARIANT .*\n", "", open(gen_cfg).read())
+    open(gen_cfg, "w").write(txt)
+    r = tlc.run_tlc("MC_FaultLog", gen_cfg, simulate=f"file={d}/tr,num={num}",
                     depth=length, seed=chk.seed + 1, workers=1, timeout=900)
     if r.errors:
         raise tlc.MachineryFailure(f"TLC -simulate {cfg}: {r.errors[:3]}\n{r.out[-1500:]}")
     behs = tlc.read_sim_traces(f"{d}/tr")
+    if len(behs) < num // 2:
+        raise tlc.MachineryFailure(f"TLC -simulate {cfg}: only {len(behs)} of {num} behaviours were generated")
     shutil.rmtree(d)
     jobs, hists = [], []
     seen = set()
@@ -399,6 +406,13 @@ def sim_conformance(chk: Check, pool, cfg: str, depth: int, num: int, length: in
     stats["drift_items"] += ndrift
     stats["sim"][cfg] = {"behaviours": len(hists), "real_steps": sum(len(x) for x in hists)}
     judge(chk, "simulate:" + cfg, depth, hists, [o for o, _ in res], stats)
+    # the same behaviours as a gateway that does not route messages to its entities lives them (reduce_processing):
+    # get_faultlog() must file the replies to its own requests itself
+    from harness import ext_c19 as X
+    nd = sorted({X.nodispatch(h) for h in hists if any(e[0] == "rstart" for e in h)})[: max(40, len(hists) // 4)]
+    res_nd = run_real(pool, depth, [(h, None, False) for h in nd])
+    judge(chk, "simulate-nodispatch:" + cfg, depth, nd, [o for o, _ in res_nd], stats)
+    stats["sim"][cfg]["behaviours_without_dispatch"] = len(nd)
     if hists:
         stats["samples"].append({"source": "simulate:" + cfg, "events": [list(e) for e in hists[0][:25]],
                                  "view_after_25": res[0][0][min(24, len(res[0][0]) - 1)]["view"]})
